@@ -15,6 +15,8 @@ type Subscribe struct {
 	PacketID   PacketID
 	Topics     []Topic //suback响应之前填充
 	Properties *Properties
+	// Dup is the DUP flag MQTT 3.1 had on SUBSCRIBE (always false for later versions)
+	Dup bool
 }
 
 func (p *Subscribe) String() string {
@@ -47,6 +49,7 @@ func NewSubscribePacket(fh *FixHeader, version Version, r io.Reader) (*Subscribe
 	if fh.Flags != FlagSubscribe && !(version == Version31 && fh.Flags == FlagSubscribe|0x08) {
 		return nil, codes.ErrMalformed
 	}
+	p.Dup = fh.Flags&0x08 != 0
 	err := p.Unpack(r)
 	if err != nil {
 		return nil, err
@@ -57,6 +60,9 @@ func NewSubscribePacket(fh *FixHeader, version Version, r io.Reader) (*Subscribe
 // Pack encodes the packet struct into bytes and writes it into io.Writer.
 func (p *Subscribe) Pack(w io.Writer) error {
 	p.FixHeader = &FixHeader{PacketType: SUBSCRIBE, Flags: FlagSubscribe}
+	if p.Dup && p.Version == Version31 {
+		p.FixHeader.Flags |= 0x08
+	}
 	bufw := getBuffer()
 	defer putBuffer(bufw)
 	writeUint16(bufw, p.PacketID)
